@@ -7,8 +7,8 @@ EXTENDS ParamGetters, Json, IOUtils
 Table == JsonDeserialize(IOEnv.CONV_FILE)
 MCNV == Table.nv
 MCConv(kind, v) == Table.conv[kind][v]
-MCKinds == {"str", "int", "float", "bool", "uuid", "datetime", "date", "json", "list", "list_int"}
-MCBounds == {0, 10, 7000}          \* ints: 0 / 10; floats are in thousandths: 0.0 / 0.01 / 7.0
+MCKinds == {"str", "int", "float", "bool", "uuid", "datetime", "date", "json", "list", "list_int", "has"}
+MCBounds(kind) == IF kind = "int" THEN {0, 10} ELSE {0, 7000}      \* floats are in thousandths: 0.0 / 7.0
 
 XGetParam    == GetPlain("str") /\ call = NoCall
 XGetInt      == GetBounded("int") /\ call = NoCall
@@ -20,8 +20,9 @@ XGetDate     == GetPlain("date") /\ call = NoCall
 XGetJson     == GetPlain("json") /\ call = NoCall
 XGetList     == GetPlain("list") /\ call = NoCall
 XGetListInt  == GetPlain("list_int") /\ call = NoCall
+XHasParam    == HasParam /\ call = NoCall
 XNext == XGetParam \/ XGetInt \/ XGetFloat \/ XGetBool \/ XGetUuid \/ XGetDatetime \/ XGetDate \/ XGetJson
-         \/ XGetList \/ XGetListInt
+         \/ XGetList \/ XGetListInt \/ XHasParam
 
 Emit == Made => PrintT(ToJson([present |-> present, vals |-> vals, call |-> call, last |-> last]))
 
